@@ -1496,7 +1496,20 @@ Proof.
     cbn [length] in Hf. rewrite members_text_body.
     destruct ms as [|m2 ms2]; cbv beta iota.
     + destruct fuel as [|fuel]; [lia|]. reflexivity.
-    + rewrite (IH fuel [10; 10]); [reflexivity | exact Hms | repeat constructor | lia].
+    + rewrite IH; [reflexivity | exact Hms | repeat constructor | lia].
+Qed.
+
+Lemma members_text_length ms : (length ms <= length (members_text ms))%nat.
+Proof.
+  induction ms as [|m ms IH]; cbn [members_text flat_map length]; [lia|]. fold (members_text ms).
+  unfold NL. unfold byte in *. rewrite !app_length. cbn [length]. lia.
+Qed.
+
+Lemma members_body_length ms : (length ms <= length (members_body ms))%nat.
+Proof.
+  destruct ms as [|m ms]; [cbn; lia|]. cbn [members_body length].
+  destruct (render_member_hd m []) as (b & l & E & _). rewrite app_nil_r in E.
+  pose proof (members_text_length ms). unfold byte in *. rewrite app_length, E. cbn [length]. lia.
 Qed.
 
 Lemma interface_def_render t : iface_ok t = true -> interface_def (render t) = (Ok t, []).
@@ -1523,7 +1536,8 @@ Proof.
     rewrite E1. exact Hb1. }
   step (exact Hws).
   unfold with_len.
-  step (apply (members_loop_body (members_of t) _ []); [exact Hms | constructor | lia]).
+  step (apply (members_loop_body (members_of t) _ []); [exact Hms | constructor |
+        pose proof (members_body_length (members_of t)); lia]).
   unfold ret. now rewrite interface_of_members.
 Qed.
 
@@ -1568,9 +1582,11 @@ Proof.
   assert (Hs : trim_start l = l).
   { unfold trim_start. destruct (length l); [reflexivity|]. cbn [strip_while]. rewrite E1.
     now rewrite ws_char_len_graphic. }
-  rewrite Hs. unfold trim_end. destruct (length l); cbn [strip_while]; [apply rev_involutive|].
-  rewrite E2 at 1. rewrite rev_app_distr. cbn [rev app]. rewrite ws_char_len_rev_graphic by exact H2.
-  rewrite <- (rev_involutive l) at 2. f_equal. rewrite E2. rewrite rev_app_distr. reflexivity.
+  rewrite Hs. unfold trim_end. set (r := rev l).
+  assert (Hr : r = c2 :: rev front) by (subst r; rewrite E2, rev_app_distr; reflexivity).
+  destruct (length l); cbn [strip_while]; [subst r; apply rev_involutive|].
+  replace (ws_char_len_rev r) with O by (rewrite Hr; symmetry; now apply ws_char_len_rev_graphic).
+  subst r. apply rev_involutive.
 Qed.
 
 Lemma alnum_graphic c : is_alnum c = true -> graphic c.
@@ -1622,7 +1638,7 @@ Qed.
 
 Lemma render_first t : exists c back, render t = c :: back /\ graphic c.
 Proof.
-  unfold render. rewrite <- !app_assoc. destruct (icomments t) as [|c cs].
+  unfold render. rewrite <- ?app_assoc. destruct (icomments t) as [|c cs].
   - cbn [render_comments flat_map app]. bsnorm. cbn [app]. eexists; eexists; split; [reflexivity|].
     unfold graphic. lia.
   - unfold render_comments. cbn [flat_map]. unfold render_comment. bsnorm. cbn [app].
